@@ -281,7 +281,7 @@ var secpN, _ = new(big.Int).SetString("fffffffffffffffffffffffffffffffebaaedce6a
 func TestC03(t *testing.T) {
 	p := defaultProfile()
 	p.MinBlocks, p.MaxBlocks = 3, 10
-	p.PFault = 0
+	p.PFault = 14 // the prior history carries forged transactions of every type too (flipped/foreign/missing signatures, other chain id)
 	p.PEvidence, p.PAbsent = 0, 0
 	p.W["raw"], p.W["replay"] = 0, 0
 	st := newStats("C03")
@@ -319,6 +319,14 @@ func TestC03(t *testing.T) {
 		c, err := RunPrimary("C03", src, nil)
 		if c != nil && c.Sim != nil {
 			defer c.Sim.Close(true)
+		}
+		// every transaction the history accepted must carry a signature that recovers its sender for this chain
+		// (recomputed by the model with go-ethereum's SigToPub over the delivered fields)
+		if c != nil && c.W != nil {
+			if vs := c.W.violationsOf("C03"); len(vs) > 0 {
+				dumpFailure(c.Hist, vs[0].Msg)
+				rt.Fatalf("C03: %s", vs[0].Msg)
+			}
 		}
 		if err != nil || c.EndedBy != "" {
 			st.caseDone(false, "", nil)
@@ -501,7 +509,16 @@ func replayC03(h *History) error {
 		return nil
 	}
 	pre := &History{Genesis: h.Genesis, Blocks: h.Blocks[:n-1]}
-	sa, _, err := runReplica(pre, nil, nil)
+	sa, _, err := runReplica(pre, nil, func(s *Sim, bi int, b *Block, br *BlockResult) error {
+		// no accepted tx of the history may carry a signature that does not recover its sender
+		for i, raw := range b.Txs {
+			d := &ctypes.Trx{}
+			if br.Txs[i].Code == 0 && (d.Decode(raw) != nil || !sigRecovers(d, h.Genesis.ChainID)) {
+				return violationf("block %d tx %d was accepted although its signature does not recover the sender for chain %q", bi+1, i, h.Genesis.ChainID)
+			}
+		}
+		return nil
+	})
 	defer sa.Close(true)
 	if err != nil {
 		return err
